@@ -425,6 +425,7 @@ func (t *WeightedMerkleTrie) Commit(collapseLevel int) (storage.Batcher, error) 
 		close(deleteChan)
 		close(createdChan)
 		wg.Wait()
+		t.dropCreatedFromTempDeleted()
 		t.tempDeletedCommitted = len(t.tempDeleted)
 	}()
 	t.collectDeleteAndCreated(deleteChan, createdChan, wg)
@@ -583,6 +584,27 @@ func (t *WeightedMerkleTrie) commit(node Node, batcher storage.Batcher, collapse
 	}
 
 	return node, nil
+}
+
+// dropCreatedFromTempDeleted removes the hashes this commit (re)created from the
+// pending deletes: nodes are addressed by content, so a node that was replaced
+// and created again with identical content (delete and re-add, update and
+// update back) is live.
+func (t *WeightedMerkleTrie) dropCreatedFromTempDeleted() {
+	if len(t.tempDeleted) == 0 || len(t.created) == 0 {
+		return
+	}
+	created := make(map[string]struct{}, len(t.created))
+	for _, hash := range t.created {
+		created[string(hash)] = struct{}{}
+	}
+	kept := t.tempDeleted[:0]
+	for _, hash := range t.tempDeleted {
+		if _, ok := created[string(hash)]; !ok {
+			kept = append(kept, hash)
+		}
+	}
+	t.tempDeleted = kept
 }
 
 func commonPrefix(a, b []byte) int {
